@@ -125,6 +125,7 @@ type SpecFile struct {
 	Valids    []*ValidSpec
 	Opaques   []string
 	NoEffect  []string
+	Delegates map[string]string
 }
 
 // ---------------------------------------------------------------------------
@@ -547,7 +548,7 @@ var clauseKeywords = map[string]bool{
 	"valid": true, "inline": true, "pure": true, "wraps": true, "maypanic": true, "theory": true,
 	"package": true, "import": true, "opaque": true, "split": true, "noeffect": true, "trusted": true,
 	"case": true, "alloc": true, "unroll": true, "interface": true, "nooverflow": true, "havocs": true,
-	"reads": true, "bounded": true, "skip": true,
+	"reads": true, "bounded": true, "skip": true, "delegate": true,
 }
 
 type rawLine struct {
@@ -603,6 +604,16 @@ func ParseSpecFile(path, defaultPkg string) (*SpecFile, error) {
 				return nil, fail(fmt.Errorf("import alias path"))
 			}
 			sf.Imports[f[0]] = f[1]
+		case "delegate":
+			// delegate (Type) field
+			j := strings.Index(rest, ")")
+			if !strings.HasPrefix(rest, "(") || j < 0 {
+				return nil, fail(fmt.Errorf("delegate (Type) field"))
+			}
+			if sf.Delegates == nil {
+				sf.Delegates = map[string]string{}
+			}
+			sf.Delegates[qualifyType(strings.TrimSpace(rest[1:j]), sf)] = strings.TrimSpace(rest[j+1:])
 		case "opaque":
 			sf.Opaques = append(sf.Opaques, strings.Fields(rest)...)
 		case "noeffect":
